@@ -105,10 +105,49 @@ def finder_case(case):
     return sorted(set(bad))
 
 
+def finder_multi_case(case):
+    """ONE call of a finder on several alignments spread over several reference maps (the maps share label numbers, not label distances): every call
+    must be computed from the maps and the alignment it names - nothing carried over from the alignment handled before"""
+    which, specs, pairs, brk = case
+    from src.diagnostic.benchmark_alignment import BenchmarkAlignedPair
+
+    class M:
+        def __init__(self, positions): self.positions = positions
+
+    class Al:
+        def __init__(self, q, r): self.queryId, self.referenceId = q, r; self.alignedPairs = [BenchmarkAlignedPair.create(str(a), str(b)) for a, b in pairs]
+    als = {c + 1: [Al(50 + c, c + 1)] for c in range(len(specs))}
+    refs = {c + 1: M(list(sp[0])) for c, sp in enumerate(specs)}
+    qrys = {50 + c: M(list(sp[1])) for c, sp in enumerate(specs)}
+    try:
+        if which == 'molecule':
+            import molecule_indels as m
+            out = m.look_for_indels_in_breakage(als, refs, qrys, {50 + c: [brk, als[c + 1][0].alignedPairs[brk]] for c in range(len(specs))})
+        else:
+            import segment_indels as m
+            out = m.look_for_indels_in_breakage(als, refs, qrys, {50 + c: [[brk, str(als[c + 1][0].alignedPairs[brk])]] for c in range(len(specs))})
+    except Exception as e:
+        return [f'exception:{type(e).__name__}:{e}'[:80]]
+    bad = []
+    (r1, q1), (r2, q2) = pairs[brk], pairs[brk + 1]
+    for c in out['insertion'] + out['deletion']:
+        ci = c[1] - 1
+        if not (0 <= ci < len(specs)) or c[4] != 50 + ci:
+            bad.append('call_names_the_ids_of_its_alignment')
+            continue
+        rpos, qpos = specs[ci]
+        diff = abs(rpos[r1 - 1] - rpos[r2 - 1]) - abs(qpos[q1 - 1] - qpos[q2 - 1])
+        if c[7] != diff or c[2] != rpos[r1 - 1] or c[3] != rpos[r2 - 1] or c[5] != qpos[q1 - 1] or c[6] != qpos[q2 - 1]:
+            bad.append('length_is_reference_gap_minus_query_gap_of_flanking_labels')
+        if (c[0] == 'insertion') != (c[7] < 0):
+            bad.append('type_is_insertion_exactly_when_length_negative')
+    return sorted(set(bad))
+
+
 def run_chunk(cases):
     out, nt = [], 0
     for kind, case in cases:
-        bad = {'cluster': run_cluster_case, 'file': run_file_case, 'finder': finder_case}[kind](case)
+        bad = {'cluster': run_cluster_case, 'file': run_file_case, 'finder': finder_case, 'finder_multi': finder_multi_case}[kind](case)
         nt += 1 if kind != 'cluster' or len(case[0]) >= 2 else 0
         if bad:
             out.append((kind, case, bad))
@@ -167,6 +206,20 @@ def all_cases(tier, seed):
         for pairs, flank in ((((1, 1), (2, 2), (3, 3), (4, 4)), (5, 2)), (((1, 1), (2, 2), (3, 3), (4, 4)), (6, 2)),
                              (((1, 5), (2, 4), (3, 3), (4, 2)), (2, 4)), (((1, 5), (2, 4), (3, 3), (4, 2)), (5, 4)), (((2, 4), (3, 3), (4, 2), (5, 1)), (6, 3))):
             cs.append(('finder', ('molecule', rpos, qpos, pairs, 1, flank)))
+    # one finder call over several reference maps that share label numbers but not label distances
+    rm = random.Random(seed * 211 + 3)
+    for which in ('molecule', 'segment'):
+        for _ in range(40 if tier == 'quick' else 600):
+            specs = []
+            for c in range(rm.randint(2, 4)):
+                rp = [1000]
+                for _k in range(5):
+                    rp.append(rp[-1] + rm.choice((6000, 9000, 11000, 15000, 30000)))
+                qp = [0]
+                for _k in range(4):
+                    qp.append(qp[-1] + rm.choice((3000, 6000, 9000, 11000, 20000, 40000)))
+                specs.append((tuple(rp), tuple(qp)))
+            cs.append(('finder_multi', (which, tuple(specs), ((1, 1), (2, 2), (3, 3), (4, 4)), rm.choice((0, 1, 2)))))
     return cs
 
 
@@ -185,7 +238,7 @@ def bounded(repo, tier, seed):
     return result(sum(r[0] for r in res), sum(r[1] for r in res),
                   "cluster_indels on all sorted lists of <= 3 calls (quick; 4 thorough, sampled) over 2 types x 2 chromosomes x start/stop coordinates at "
                   "differences 0/90/100/150/250 around blur=100 (exactly at, inside, outside), plus random lists of up to 30 calls with the default blur; "
-                  "write_indel_file re-read; the two indel finders on synthetic joined alignments with query gaps around both size bands",
+                  "write_indel_file re-read; the two indel finders on synthetic joined alignments with query gaps around both size bands, and in one call over 2-4 reference maps that share label numbers but not label distances",
                   [dict(kind=cs[30][0], case=cs[30][1])], list(viol.values())[:6], exhaustive=False, bounds="<= 3-4 calls per list (exhaustive part sampled)")
 
 
@@ -194,5 +247,5 @@ def replay(repo, rp):
     use_repo(repo)
     i = rp['input']
     def tup(x): return tuple(tup(y) for y in x) if isinstance(x, list) else x
-    bad = {'cluster': run_cluster_case, 'file': run_file_case, 'finder': finder_case}[i['kind']](tup(i['case']))
+    bad = {'cluster': run_cluster_case, 'file': run_file_case, 'finder': finder_case, 'finder_multi': finder_multi_case}[i['kind']](tup(i['case']))
     return (not bad), bad
